@@ -80,7 +80,7 @@ def solver_layout(tu=STU, flt='nano::solver_t', solver_cls='nano::solver_t', loc
 def solver_targets():
     def common():
         track = frame.make_track(lvalue_hooks=[frame.param_ref_hook()])
-        return dict(types=STYPES, opaque=SOLVER_ERASED, hooks=[frame.param_ref_hook()], stmt_hooks=[track.stmt_hook], uf_float=False,
+        return dict(types=STYPES, opaque=SOLVER_ERASED, hooks=[frame.param_ref_hook(), track.expr_hook], stmt_hooks=[track.stmt_hook], uf_float=False,
                     calls=SCALLS, members=SMEMBERS, aggregates=['struct nv_tuple_b_f64'])
     LTU = 'src/solver/lsearch.cpp'
     ctor = lambda: Fn('lsearch_ctor', LTU, 'lsearch_t', flt='nano::lsearch_t', kinds=('CXXConstructorDecl',), self_struct='struct nv_lsearch', **common())
@@ -172,7 +172,7 @@ def iterator_targets():
 
     def common(self_struct):
         track = frame.make_track()
-        return dict(types=DTYPES, opaque=frame.ERASED, stmt_hooks=[track.stmt_hook], uf_float=False, self_struct=self_struct,
+        return dict(types=DTYPES, opaque=frame.ERASED, stmt_hooks=[track.stmt_hook], hooks=[track.expr_hook], uf_float=False, self_struct=self_struct,
                     calls=ICALLS, members=IMEMBERS)
     tmap = lambda: Fn('titer_targets_map', ITU, 'targets', flt=IFLT, select=lambda d: mg('targets_iterator_t7targets')(d) and nparams(1)(d), **common('struct nv_titer'))
     tget = lambda: Fn('titer_targets', ITU, 'targets', flt=IFLT, select=lambda d: mg('targets_iterator_t7targets')(d) and nparams(2)(d), **common('struct nv_titer'))
@@ -200,6 +200,63 @@ def iterator_targets():
     return ts
 
 
+# ------------------------------------------------------------------------------------------ objective functions (chunk tasks)
+OBJ_H = 'specs/C18/objective2.h'
+OTYPES = [(r'__alloc_traits<std::allocator<nano::linear::accumulator_t>.*::value_type$', 'struct nv_lacc'),
+          (r'__alloc_traits<std::allocator<nano::gboost::accumulator_t>.*::value_type$', 'struct nv_gacc'),
+          (r'^nano::linear::function_t$', 'struct nv_lfun'), (r'^nano::gboost::(scale|bias|grads)_function_t$', 'struct nv_gfun'),
+          (r'^nano::linear::accumulator_t$', 'struct nv_lacc'), (r'^nano::gboost::accumulator_t$', 'struct nv_gacc'),
+          (r'^std::vector<nano::linear::accumulator_t', 'struct nv_laccs'), (r'^std::vector<nano::gboost::accumulator_t', 'struct nv_gaccs'),
+          (r'^(nano::)?tensor_range_t$', 'struct nv_range'), (r'^nano::loss_t$', 'struct nv_loss'),
+          (r'^nano::flatten_iterator_t$', 'struct nv_fiter'), (r'^nano::targets_iterator_t$', 'struct nv_titer')]
+OPTR = [(r'^nano::loss_t$', 'struct nv_loss'), (r'^nano::flatten_iterator_t$', 'struct nv_fiter'), (r'^nano::targets_iterator_t$', 'struct nv_titer')]
+ROWS = {'m_values': 'struct nv_rows', 'm_vgrads': 'struct nv_rows', 'm_outputs': 'struct nv_rows'}
+OBJ_ERASED = [r for r in frame.ERASED if 'tensor_range_t' not in r]
+
+
+def objective_layout(tu, flt, fun_cls, fun_cname, acc_cls, acc_cname):
+    bases = dict(CLONABLE)
+    bases.update({'nano::function_t': (STU, 'nano::function_t'), 'nano::typed_t': (STU, 'nano::typed_t')})
+    lay = frame.Layout([
+        dict(tu='src/loss.cpp', cls='nano::loss_t', cname='struct nv_loss', bases=CLONABLE),
+        dict(tu='src/linear/function.cpp', cls='nano::linear::accumulator_t', cname='struct nv_lacc', bases=bases),
+        dict(tu='src/gboost/function.cpp', cls='nano::gboost::accumulator_t', cname='struct nv_gacc', bases=bases),
+        dict(tu=tu, cls=fun_cls, flt=flt, cname=fun_cname, bases=bases, ptr=OPTR, fields=ROWS if 'gboost' in fun_cls else {})],
+        types=OTYPES, base_tu='src/loss.cpp')
+
+    def pre():
+        text, info = lay.text()
+        return f'#include "{astload.VERIF}/specs/C18/objective.h"\n' + text, info
+    return pre, lay
+
+
+def objective_targets():
+    ts = []
+
+    def common(lay, self_struct, rows=()):
+        rsh = frame.rows_slice_hook(set(rows))
+        track = frame.make_track(rows_fields=rows, effect_hooks=[rsh])
+        return dict(types=OTYPES, opaque=OBJ_ERASED, stmt_hooks=[track.stmt_hook], uf_float=False, self_struct=self_struct,
+                    hooks=[rsh, frame.ref_member_hook(lay.ref_fields), track.expr_hook],
+                    calls=[(r'^operator\[\]\|.*\|std::vector<nano::linear::accumulator_t', '(*nv_lacc_at({&0}, {1}))'),
+                           (r'^operator\[\]\|.*\|std::vector<nano::gboost::accumulator_t', '(*nv_gacc_at({&0}, {1}))')] + PURE,
+                    members=[(r'^(value|vgrad|error)\|nano::loss_t\|#3', 'nv_loss_call({self}, {0}, {1}, {&2})'),
+                             (r'^update\|nano::gboost::accumulator_t', 'nv_gacc_update({self}, {0})'),
+                             (r'^begin\|nano::tensor_range_t', '{self}->m_begin'), (r'^end\|nano::tensor_range_t', '{self}->m_end'),
+                             (r'^size\|nano::tensor_range_t', '({self}->m_end - {self}->m_begin)')])
+    LTU, GTU = 'src/linear/function.cpp', 'src/gboost/function.cpp'
+    pre, lay = objective_layout(LTU, 'nano::linear::function_t', 'nano::linear::function_t', 'struct nv_lfun', 'nano::linear::accumulator_t', 'struct nv_lacc')
+    f = Fn('linear_vgrad_task', LTU, 'do_vgrad', flt='nano::linear::function_t', lambda_index=0, captures=True, **common(lay, 'struct nv_lfun'))
+    ts.append(T('linear_vgrad_task', [f], OBJ_H, pre=pre))
+    for kind, name, li in (('scale', 'do_vgrad', 0), ('bias', 'do_vgrad', 0), ('grads', 'gradients', 0)):
+        cls = f'nano::gboost::{kind}_function_t'
+        pre, lay = objective_layout(GTU, 'nano::gboost::', cls, 'struct nv_gfun', 'nano::gboost::accumulator_t', 'struct nv_gacc')
+        f = Fn(f'gboost_{kind}_task', GTU, name, flt='nano::gboost::', select=mg(f'{kind}_function_t'), lambda_index=li, captures=True,
+               **common(lay, 'struct nv_gfun', rows=tuple(ROWS)))
+        ts.append(T(f'gboost_{kind}_task', [f], OBJ_H, pre=pre))
+    return ts
+
+
 def build(tier):
-    targets = solver_targets() + iterator_targets()
+    targets = solver_targets() + iterator_targets() + objective_targets()
     return {'targets': targets, 'vcs': [], 'decided': [], 'not_decided': [], 'assumptions': [], 'trusted': []}
